@@ -14,7 +14,7 @@ mkdir -p "$scratch/evidence"; cp known_findings.json "$scratch/"
 . ./env.sh
 caught=""
 for p in $props; do
-  out=$(VERIF_REPO="$scratch/repo" VERIF_DIR="$scratch" ./bin/pcheck "$p" quick 2>&1)
+  out=$(VERIF_REPO="$scratch/repo" VERIF_DIR="$scratch" ${PCHECK:-./bin/pcheck} "$p" quick 2>&1)
   if echo "$out" | grep -q "^VIOLATION"; then
     caught="$caught $p"
     echo "== $p"; echo "$out" | grep -A2 "^violated\|^undecided\|^machinery" | cut -c1-400 | head -12
